@@ -71,6 +71,9 @@ func (p *Proof) modifiesEffects(callee *ssa.Function, m *Clause, cc *ssa.CallCom
 	case *ast.Ident:
 		if n.Name == "heap" || n.Name == "everything" {
 			e.allHeap = true
+			if n.Name == "everything" {
+				e.allGlobals = true
+			}
 			return
 		}
 		if strings.HasPrefix(n.Name, "ghost__") {
